@@ -161,7 +161,7 @@ class C08(PropertyCheck):
             N = rng.randint(1, 4)
             dims = [rng.choice([2, 3, 4]) for _ in range(N)]
             k = rng.randint(1, 3)
-            mode = rng.choice(["dup", "neg", "big", "count", "dims", "valid"])
+            mode = rng.choice(["dup", "neg", "big", "count", "dims", "valid", "perm", "full"])
             ts = rng.sample(range(N), min(k, N))
             od = [dims[t] for t in ts]
             if mode == "dup" and ts:
@@ -178,6 +178,13 @@ class C08(PropertyCheck):
             elif mode == "dims":
                 j = rng.randrange(len(od))
                 od[j] = {2: 3, 3: 4, 4: 2}[od[j]]
+            elif mode == "perm":       # operator dims = the targets' dims in another order
+                od = od[:]
+                rng.shuffle(od)
+            elif mode == "full":       # full-width operator with the register's dims, targets in any order
+                ts = list(range(N))
+                rng.shuffle(ts)
+                od = list(dims)
             cases.append((dims, ts, od, mode))
             lines.append(f"validate dims={','.join(map(str, dims))} targets={','.join(map(str, ts))} "
                          f"opdims={','.join(map(str, od))}")
@@ -192,8 +199,39 @@ class C08(PropertyCheck):
                 res.disagree(inp, model, st, "validation verdict",
                              {"kind": "malformed", "dims": dims, "targets": ts, "opdims": od})
 
+    def _validation_exhaustive(self, ctx, res, maxN):
+        """Every request over a small alphabet: dims in {2,3}^N, every target tuple over -1..N (duplicates,
+        negatives and out-of-range included), every operator dims tuple over {2,3} of length 1..3."""
+        cases, lines = [], []
+        for N in range(1, maxN + 1):
+            for dims in itertools.product((2, 3), repeat=N):
+                for k in range(1, 4):
+                    for ts in itertools.product(range(-1, N + 1), repeat=k):
+                        for kk in {k, min(k + 1, 3), max(k - 1, 1)}:
+                            for od in itertools.product((2, 3), repeat=kk):
+                                cases.append((list(dims), list(ts), list(od)))
+        for dims, ts, od in cases:
+            lines.append(f"validate dims={','.join(map(str, dims))} targets={','.join(map(str, ts))} "
+                         f"opdims={','.join(map(str, od))}")
+        outs = ctx.driver("drv_embed").run(lines)
+        opers = {}
+        for (dims, ts, od), o in zip(cases, outs):
+            key = tuple(od)
+            if key not in opers:
+                opers[key] = generic_oper(od)[0]
+            st, _r = impl_expand(dims, ts, opers[key])
+            model = "ok" if o == "ok" else o.replace("err ", "")
+            inp = {"dims": dims, "targets": ts, "opdims": od, "malformed": "exhaustive"}
+            res.case(inp, nontrivial=True, tags=["validation-exhaustive", f"verdict={model}"])
+            if st != model:
+                res.disagree(inp, model, st, "validation verdict",
+                             {"kind": "malformed", "dims": dims, "targets": ts, "opdims": od})
+        res.notes.append(f"validation verdicts compared exhaustively for N <= {maxN}: dims over {{2,3}}, all target tuples of "
+                         f"length 1-3 over -1..N, all operator dims tuples over {{2,3}} ({len(cases)} requests)")
+
     def correspondence(self, ctx, res):
         rng = ctx.rng
+        self._validation_exhaustive(ctx, res, 3)
         exhaustN = 4 if ctx.thorough else 3
         nrows = 8 if ctx.thorough else 6
         # exhaustive small space: every dims vector over {2,3,4}, every injective target tuple
@@ -260,6 +298,11 @@ class C08(PropertyCheck):
             return {"kind": "valid", "dims": dims, "targets": ts}
         N = rng.randint(1, 4)
         dims = [rng.choice([2, 3, 4]) for _ in range(N)]
+        if rng.random() < 0.4:         # operator carrying the register's own dims, targets permuted
+            ts = list(range(N))
+            rng.shuffle(ts)
+            k = rng.randint(1, N)
+            return {"kind": "malformed", "dims": dims, "targets": ts[:k], "opdims": sorted(dims)[:k] if rng.random() < 0.5 else dims[:k]}
         ts = [rng.randint(0, N + 1) for _ in range(rng.randint(1, 3))]
         od = [rng.choice([2, 3]) for _ in range(rng.choice([len(ts), len(ts), len(ts) + 1]))]
         return {"kind": "malformed", "dims": dims, "targets": ts, "opdims": od}
